@@ -133,6 +133,24 @@ Theorem C28_3d_box_partial :
 Proof. exact seg3d_box. Qed.
 Print Assumptions C28_3d_box_partial.
 
+(* 3-D, parallel lines that are not the same line (some component of (s2 - s1) x d1 beyond
+   tol): for arbitrary rational end points and tol > 0 segments_3d returns None and the
+   segments are indeed disjoint.  (PARTIAL: one class of the "parallel" branch; colinear
+   inputs are covered by C28_3d_box_partial on the finite box only.) *)
+Theorem C28_3d_parallel_offline_correct_partial :
+  forall tol a0 a1 a2 b0 b1 b2 c0 c1 c2 d0 d1 d2,
+    0 < tol ->
+    let u0 := b0 - a0 in let u1 := b1 - a1 in let u2 := b2 - a2 in
+    let w0 := d0 - c0 in let w1 := d1 - c1 in let w2 := d2 - c2 in
+    u1 * w2 - u2 * w1 == 0 -> u2 * w0 - u0 * w2 == 0 -> u0 * w1 - u1 * w0 == 0 ->
+    (tol < Qabs ((c1 - a1) * u2 - (c2 - a2) * u1) \/ tol < Qabs ((c2 - a2) * u0 - (c0 - a0) * u2) \/
+     tol < Qabs ((c0 - a0) * u1 - (c1 - a1) * u0)) ->
+    seg3d tol [a0; a1; a2] [b0; b1; b2] [c0; c1; c2] [d0; d1; d2] = R3None /\
+    correct3 [a0; a1; a2] [b0; b1; b2] [c0; c1; c2] [d0; d1; d2]
+             (seg3d tol [a0; a1; a2] [b0; b1; b2] [c0; c1; c2] [d0; d1; d2]).
+Proof. exact seg3d_parallel_offline_correct. Qed.
+Print Assumptions C28_3d_parallel_offline_correct_partial.
+
 (* Non-vacuity: concrete instances of the hypotheses, with the results. *)
 Example C28_nonvacuous_2d :
   inbox 0 /\ inbox 4 /\ (0, 0)%Z <> (4, 4)%Z /\ (0, 4)%Z <> (4, 0)%Z /\
@@ -180,3 +198,10 @@ Example C28_nonvacuous_3d_box :
 Proof.
   cbv zeta. unfold inb1. repeat split; try lia; vm_compute; reflexivity.
 Qed.
+
+Example C28_nonvacuous_3d_parallel :
+  (* (0,0,0)-(1,2,3) and (0,1,0)-(2,5,6): parallel, not the same line *)
+  (2 * 6 - 3 * 4 == 0 /\ 3 * 2 - 1 * 6 == 0 /\ 1 * 4 - 2 * 2 == 0) /\
+  tol8 < Qabs ((1 - 0) * 3 - (0 - 0) * 2) /\
+  seg3d tol8 [0; 0; 0] [1; 2; 3] [0; 1; 0] [2; 5; 6] = R3None.
+Proof. repeat split; vm_compute; reflexivity. Qed.
